@@ -144,3 +144,33 @@ Print Assumptions C01_from_fd_of_cstr.
 Theorem C01_from_fd_examples : fd_examples_ok = true.
 Proof. exact fd_examples. Qed.
 Print Assumptions C01_from_fd_examples.
+
+(* ---- integers beyond 64 bits, at document level (TokValidSat.v, TokBigInt.v) ----
+   "Integers beyond 64 bits saturate in default mode and are rejected in strict mode": every valid
+   document, whatever integers it contains, is accepted in default mode with the value in which each
+   out-of-range integer token is replaced by UINT64_MAX / INT64_MIN (value_sat; equal to [value] when
+   all integers are in range); in strict mode a document containing such a token anywhere is rejected. *)
+From JC Require Import TokStrictPos TokStrictExt TokValidSat TokBigInt.
+
+Theorem C01_value_sat_in_range : forall sb s, ints_in_range s = true -> value_sat sb s = value sb s.
+Proof. exact value_sat_in_range. Qed.
+Print Assumptions C01_value_sat_in_range.
+
+Theorem C01_parse_valid_sat : forall sb D al s lead trail t,
+  wf_stx s -> all_ws lead = true -> all_ws trail = true -> Z.of_nat (nest s) < D ->
+  names_nul_free s = true -> tok_new D false al false = Some t ->
+  exists t', parse_ex_cstr sb t (render_doc lead s trail) = PR t' (Some (value_sat sb s)) /\
+             err t' = TE_success /\ char_offset t' = zlen (render_doc lead s trail).
+Proof. exact parse_valid_sat. Qed.
+Print Assumptions C01_parse_valid_sat.
+
+Theorem C01_parse_strict_rejects_big : forall sb D s lead trail t,
+  wf_stx s -> all_ws lead = true -> all_ws trail = true -> Z.of_nat (nest s) < D ->
+  names_nul_free s = true -> ints_in_range s = false -> tok_new D true false false = Some t ->
+  rejected sb t (render_doc lead s trail).
+Proof. exact parse_strict_rejects_big. Qed.
+Print Assumptions C01_parse_strict_rejects_big.
+
+Theorem C01_big_example : big_example_ok = true.
+Proof. exact big_example. Qed.
+Print Assumptions C01_big_example.
